@@ -8,7 +8,8 @@ LEVEL = "model_checking"
 
 
 def configs(ctx):
-    must = [(3, 3, 3, 3), (2, 2, 1, 1), (1, 1, 2, 2), (3, 2, 1, 3), (1, 3, 3, 1), (2, 3, 2, 3), (1, 2, 1, 2)]
+    must = [(3, 3, 3, 3), (2, 2, 1, 1), (1, 1, 2, 2), (3, 2, 1, 3), (1, 3, 3, 1), (2, 3, 2, 3), (1, 2, 1, 2), (1, 2, 3, 3), (1, 1, 2, 3),
+            (3, 3, 1, 2)]
     allc = list(itertools.product([1, 2, 3], repeat=4))
     if ctx.quick:
         rnd = random.Random(ctx.seed)
@@ -24,8 +25,26 @@ def run(ctx):
                 "solvers, tokenized and partially annotated corpora; the learner's quantised output is read through the hooks and "
                 "Trace_Train recomputes every boundary score of every evaluation text as bias + sum of learned weights of the "
                 "trainer's features; non-trivial = (run, evaluation text) with at least two characters")
-    dicts = [([], 4), ([T.cps("a"), T.cps("aあ")], 2), ([T.cps("a"), T.cps("aあa"), T.cps("1a")], 1), ([T.cps("あ"), T.cps("a1a")], 4)]
-    evals = T.eval_texts([97, 12354, 49], 3 if ctx.quick else 4)
+    dicts = [([], 4), ([T.cps("a"), T.cps("aあ")], 2), ([T.cps("a"), T.cps("aあa"), T.cps("1a")], 1), ([T.cps("あ"), T.cps("a1a")], 4),
+             ([T.cps("a"), T.cps("あa"), T.cps("aあa")], 3)]
+    # evaluation sentences: every text up to the bound, as partially annotated lines whose label pattern varies
+    # (fully annotated, unknown first / last / in the middle); judged on their annotated boundaries
+    evals = []
+    for k, t in enumerate(T.eval_texts([97, 12354, 49], 3 if ctx.quick else 4)):
+        sym = []
+        for b in range(len(t) - 1):
+            pat = k % 4
+            unk = (pat == 1 and b == 0) or (pat == 2 and b == len(t) - 2) or (pat == 3 and b == (len(t) - 1) // 2)
+            sym.append(32 if unk else (124 if (b + k) % 2 == 0 else 45))
+        s = []
+        for i, c in enumerate(t):
+            s.append(c)
+            if i < len(sym):
+                s.append(sym[i])
+        evals.append({"fmt": "part", "s": s})
+    # longer sentences containing overlapping / suffix-related dictionary words
+    for txt in ["a-あ-a|1-a", "1-a-あ a|a-あ-a", "a a あ|a-1|a", "a|あ-a-あ-a|a", "あ-a a-あ-a 1"]:
+        evals.append({"fmt": "part", "s": T.cps(txt)})
     send = []
     for ci, (cw, cn, tw, tn) in enumerate(configs(ctx)):
         for di, (d, dn) in enumerate(dicts):
@@ -53,7 +72,9 @@ def run(ctx):
         for x in o.get("eval", []):
             nt = x.get("notags")
             ok = isinstance(nt, dict)
-            evs.append({"text": x["text"], "ok": ok, "scores": nt["scores"] if ok else []})
+            fok = isinstance(x.get("feats"), list)
+            evs.append({"text": x["text"], "ok": ok, "scores": nt["scores"] if ok else [], "labels": x.get("labels", []),
+                        "feats_ok": fok, "feats": x["feats"] if fok else []})
             ctx.evaluations += 1
             if len(x["text"]) >= 2:
                 ctx.nontriv((d["id"], tuple(x["text"])))
